@@ -12,7 +12,8 @@ from vlib import runner
 
 ID = "C05"
 MODULE = "PotasscoVerif.Props.C05"
-THEOREMS = ["PotasscoVerif.C05.C05_roundtrip", "PotasscoVerif.C05.C05_weights_kept", "PotasscoVerif.C05.C05_body_order",
+EXTRA_MODULES = ["PotasscoVerif.Props.C05m"]
+THEOREMS = ["PotasscoVerif.C05m.C05_modes", "PotasscoVerif.C05.C05_roundtrip", "PotasscoVerif.C05.C05_weights_kept", "PotasscoVerif.C05.C05_body_order",
             "PotasscoVerif.C05.C05_refused_rule", "PotasscoVerif.C05.C05_refused_sum", "PotasscoVerif.C05.C05_refused_output",
             "PotasscoVerif.C05.C05_refused_external", "PotasscoVerif.C05.C05_refused_assume", "PotasscoVerif.C05.C05_refused_incremental",
             "PotasscoVerif.C05.C05_refused_unsupported", "PotasscoVerif.C05.C05_value_code",
@@ -162,13 +163,13 @@ def evaluate(ctx, cases):
             if c.get("corpus_ub"): continue
             if st == "OK" and not c.get("frag_unknown"):
                 ctx.fail("C05:writes-unsupported", "a program outside the smodels fragment was written instead of being refused", c, {"text": bytes.fromhex(text)[:300].decode("latin-1") if text != "-" else ""})
-    for B in BSIZES:
-        rl = ["sr %d %s" % (c["ext"], t) for c, t in todo]
+    for B, cmd in [(b, "sr") for b in BSIZES] + [(4096, "sri")]:       # sri: the reader driven step by step (model readInc; C05_modes)
+        rl = ["%s %d %s" % (cmd, c["ext"], t) for c, t in todo]
         ri = ctx.impl(rl, B)
         rm = ctx.model(rl) if B == 4096 else None
         for j, (c, t) in enumerate(todo):
             got = ri[j]
-            cc = dict(c, B=B)
+            cc = dict(c, B=B) if cmd == "sr" else dict(c, B=B, mode="I")
             if not isinstance(got, str):
                 ctx.fail("C05:reader-crash", "SmodelsInput crashed on text written by SmodelsOutput", cc, {"stderr": got[2][-1500:]}); continue
             want = " ".join(canon(c)) + " OK"
